@@ -69,7 +69,7 @@ PROPS = {
                        "query (the state never becomes a Value at top level). validate_range is proved to accept exactly the I-JSON range. Kani probes "
                        "process_index without precondition (shows the I-JSON precondition is necessary: i64::MIN). Parser panics, stack depth and "
                        "parse time are outside both verifiers: bounded deep-nesting probes (one process each, 8 MiB stack, 20 s CPU limit; nesting depth "
-                       "<= 1024 must hold) stand in, and the two genuine defects they reproduce on the unchanged tree are recorded as known findings.",
+                       "<= 1024 must hold; a flat query of 65 536 segments also in an UNOPTIMISED build of the runner) stand in, and the two genuine defects they reproduce on the unchanged tree are recorded as known findings.",
         "assumptions": COMMON_ASSUME + ["exec termination of the recursive evaluator is not claimed (exec_allows_no_decreases_clause); only the slice loops",
                                          "stack depth is not modelled by Verus or Kani: the no-stack-exhaustion clause is bounded only (deep probes), with two open known findings"],
     },
@@ -85,6 +85,7 @@ PROPS = {
                        "before, the call returns F(arguments); and evaluating a query parsed once equals parsing at every call because both equal impl_query(parsed(text), doc). "
                        "SIDE CONDITION (mechanical scan of /repo/src on every run): no global or interior-mutable state (static, thread_local, Cell/RefCell/Mutex/Atomic/Once*, "
                        "unsafe, clocks, environment, randomness) in the non-test code - with such state a functional contract on an assumed unit could be false. "
+                       "DECIDED BY RUSTC (purity.send_sync): a probe crate asserts JpQuery: Send + Sync, QueryRef<Value>: Send + Sync and shares one parsed query between two threads. "
                        "BOUNDED (native group `purity`): the same (text, document) pairs first, again in the opposite and in a shuffled order, immediately repeated, through a query "
                        "parsed once, and from 8 threads sharing the parsed query and the document; plus the api_agree clauses of the through-the-parser groups.",
         "assumptions": COMMON_ASSUME + ["parse_json_path is a function of its text (assumed unit: `parsed` is an uninterpreted spec function)",
@@ -95,8 +96,11 @@ PROPS = {
         "level": "other",
         "explanation": "Mixed. PROVED (Verus): count (number of nodes, 0 for none), value (the single node or nothing), length (dispatch by kind; "
                        "chars().count() assumed = number of scalar values), TestFunction::apply routing, FnArg::process, the typing tables "
-                       "is_res_bool / is_comparable. BOUNDED: regex / prepare_regex (whole-string anchoring of match, search = find, non-strings and "
-                       "invalid patterns -> false); the regex engine is trusted.",
+                       "is_res_bool / is_comparable, TestFunction::try_new (name / arity table), custom (argument hand-over to the extension hook) and regex: the "
+                       "first operand is the subject and the second the pattern, an operand that is nothing / a nodelist / not a string -> false, an invalid "
+                       "pattern -> false, search = Regex::find, match = Regex::is_match of the prepared pattern (the regex crate's types are opaque, its three "
+                       "operations assumed). BOUNDED: prepare_regex (the pattern text: whole-string anchoring `^(?:p)$` of match) and the function end to end; "
+                       "the regex engine is trusted.",
         "assumptions": COMMON_ASSUME + ["regex crate is trusted", "functions are well-typed per RFC 9535 2.4.3 (wf_fn)"],
     },
     "C11": {
@@ -133,7 +137,9 @@ PROPS = {
         "verus_policy": "undecided",
         "explanation": "Mixed. Parametricity: every Verus proof is over an arbitrary T: Queryable and phrased only through the trait's spec accessors, so for the "
                        "proved units the result is a function of the trait view for ALL implementations. The comparison kernel is additionally proved by Kani "
-                       "at a second faithful view (integers visible through as_i64 only). BOUNDED: end-to-end agreement of a non-serde_json instance with serde_json::Value.",
+                       "at a second faithful view (integers visible through as_i64 only). BOUNDED: end-to-end agreement of two other implementations with serde_json::Value: "
+                       "kjson::J (association lists, also with reversed member order; integers through as_i64 only) and kjson::R (containers behind Rc, structurally equal subtrees "
+                       "shared, so that one allocation is reachable by several paths).",
         "assumptions": COMMON_ASSUME + ["eq_json falls back to T: PartialEq for non-numbers (outside the accessor view; bounded only)"],
     },
 }
